@@ -119,7 +119,7 @@ PROPS["C09"] = {
         {"name": "C09ClientResponseSize", "pkg": CC, "test": "TestVerifC09ClientResponseSize", "kind": "enum", "timeout": 300},
         # a server that stalls while writing its start response: setup errors within the server period, naming the progress
         {"name": "C09ServerStall", "pkg": CC, "test": "TestVerifC09ServerStall", "kind": "enum", "timeout": 300},
-        {"name": "C09ClientStall", "pkg": CC, "test": "TestVerifC09ClientStall", "kind": "enum", "timeout": {"quick": 240, "thorough": 240}},
+        {"name": "C09ClientStall", "pkg": CC, "test": "TestVerifC09ClientStall", "kind": "enum", "timeout": {"quick": 420, "thorough": 420}},
         {"name": "C09Fuzz", "pkg": INT, "test": "FuzzVerifC09Stream", "kind": "fuzz", "fuzz_target": "FuzzVerifC09Stream",
          "only_tiers": ["thorough"], "fuzztime": {"thorough": "60s"}, "workers": 16, "timeout": {"thorough": 600}},
     ],
